@@ -1201,7 +1201,7 @@ func (u *Unit) modTerm(st *State, a, b Term) Term {
 	f := u.d.Fun("umod", []Sort{SInt, SInt}, SInt)
 	r := App(f, SInt, a, b)
 	if st != nil && !strings.Contains(r.S, "!q") {
-		st.assume(Imp(Gt(b, IntLit(0)), And(Le(IntLit(0), r), Lt(r, b))))
+		st.assume(Imp(Gt(b, IntLit(0)), And(Le(IntLit(0), r), Lt(r, b), Eq(a, Add(Mul(b, App("div", SInt, a, b)), r)))))
 	}
 	return r
 }
